@@ -14,11 +14,15 @@ def wire(fs, symbolic_json):
     from aiomysensors import persistence as P
 
     if not hasattr(P, "_sx_real"):
-        P._sx_real = (P.aiofiles, P.json, getattr(P, "os", None))
+        P._sx_real = (P.aiofiles, P.json, getattr(P, "os", None), getattr(P, "tempfile", None))
     P.aiofiles = FakeAiofiles(fs)
     P.json = FakeJson if symbolic_json else P._sx_real[1]
     if P._sx_real[2] is not None:
         P.os = SyncOs(fs, P._sx_real[2])
+    if P._sx_real[3] is not None:
+        from sx.fsmodel import FakeTempfile
+
+        P.tempfile = FakeTempfile(fs, P._sx_real[3])
     return P
 
 
@@ -29,6 +33,8 @@ def unwire():
         P.aiofiles, P.json = P._sx_real[0], P._sx_real[1]
         if P._sx_real[2] is not None:
             P.os = P._sx_real[2]
+        if P._sx_real[3] is not None:
+            P.tempfile = P._sx_real[3]
 
 
 def snapshot(nodes):
